@@ -368,6 +368,9 @@ func runSteps(env *Env, id string, viaBase int, next func(h *heapRun, i int) *St
 				h.note(i2b(toInts(v)))
 			}
 		}
+		if env.cli != nil {
+			h.cliStep(env, env.cli, id, i, st)
+		}
 		ev := HeapEvent{H: id, I: i + 1, Op: st.Op, Recv: st.Recv, A: st.A, Ret: map[string]interface{}{}}
 		if ev.A == nil {
 			ev.A = map[string]interface{}{"z": 0}
@@ -743,6 +746,9 @@ func astrs(a map[string]interface{}, k string) string {
 
 func heapFamily(env *Env) error {
 	n := 0
+	if env.cli = newCliFront(env); env.cli != nil {
+		defer env.cli.close()
+	}
 	err := env.Cases(func(line []byte) error {
 		var sc Script
 		if err := json.Unmarshal(line, &sc); err != nil {
